@@ -274,7 +274,7 @@ class MergeableConstraints(object):
     def __init__(self, initial_constraint=None, statement_serializer_factory=None, namespaces_dict=None):
         self._constraints = []
         self._bnode_constraint = None
-        self._shape_constraints = None
+        self._shape_constraints = []
         self._iri_constraint = None
         self._dominant_constraint = None
         self._disable_or = True
@@ -291,8 +291,6 @@ class MergeableConstraints(object):
         elif statement.st_type == IRI_ELEM_TYPE:
             self._iri_constraint = statement
         else:
-            if self._shape_constraints is None:
-                self._shape_constraints = []
             self._shape_constraints.append(statement)
 
 
@@ -306,7 +304,7 @@ class MergeableConstraints(object):
 
     @property
     def has_shape_constraints(self):
-        return self._shape_constraints is not None
+        return len(self._shape_constraints) > 0
 
     def get(self, index):
         return self._constraints[index]
@@ -316,8 +314,7 @@ class MergeableConstraints(object):
 
     def sort(self):
         self._constraints.sort(reverse=True, key=lambda x: x.probability)
-        if self._shape_constraints is not None:
-            self._shape_constraints.sort(reverse=True, key=lambda x: x.probability)
+        self._shape_constraints.sort(reverse=True, key=lambda x: x.probability)
 
     def constraints(self):
         for a_constaint in self._constraints:
@@ -360,7 +357,8 @@ class MergeableConstraints(object):
 
 
     def _no_bnode_merging_strategy(self):
-        if len(self._shape_constraints) == 0 or self._shape_constraints[0].n_occurences < self._iri_constraint.n_occurences:
+        if self._iri_constraint is not None and \
+                (len(self._shape_constraints) == 0 or self._shape_constraints[0].n_occurences < self._iri_constraint.n_occurences):
             self._promote_to_dominant(self._iri_constraint)
         else:
             self._promote_to_dominant(self._shape_constraints[0])
